@@ -1,6 +1,7 @@
 (** C19 — Quantizer result record is self-consistent.
     Only the property theorems; proofs are in Proofs/QuantRecordProofs.v. *)
 From Coq Require Import ZArith Bool List Reals Lia.
+From Flocq Require Import Core IEEE754.BinarySingleNaN.
 Import ListNotations.
 From Flocq Require Import Core.
 From SU Require Import F32 F32Lemmas.
@@ -9,6 +10,7 @@ From SU.Spec Require Import QuantSpec.
 From SU.Proofs Require Import QuantRecordProofs.
 From SU.Proofs Require Import QuantExtraProofs.
 From SU.Proofs Require Import QuantKillers.
+From SU.Proofs Require Import QuantFractionProofs.
 Open Scope R_scope.
 
 (** every conversion, on both paths, reports stairstep = note number / 12 (the correctly
@@ -81,6 +83,78 @@ Theorem C19_initial_state :
 Proof. exact KQ_initial_state. Qed.
 Close Scope Z_scope.
 
+(** the [0,1)-semitone fraction range with history: on the chromatic scale, whenever the note is not kept, the record is the one a fresh quantizer reports *)
+Theorem C19_chromatic_fraction_after_history : forall ops v, wf_ops ops ->
+  let q := qrun ops in
+  q_allowed q = 4095%Z -> keeps q v = false ->
+  let c := snd (convert q v) in
+  let c0 := snd (convert quant_new v) in
+  c_note c = c_note c0 /\ c_stair c = c_stair c0 /\ c_frac c = c_frac c0 /\
+  fin (c_frac c) /\ - / 100000 <= R32 (c_frac c) < / 12 + / 100000.
+Proof. exact chromatic_fraction_after_history. Qed.
+
+(** chromatic scale, any history, any input: one case-free statement of the two ranges *)
+Theorem C19_chromatic_fraction_any : forall ops v, wf_ops ops ->
+  let q := qrun ops in
+  q_allowed q = 4095%Z ->
+  let c := snd (convert q v) in
+  fin (c_frac c) /\
+  - / 120 - / 262144 <= R32 (c_frac c) <= / 12 + / 120 + / 262144 /\
+  (keeps q v = false -> - / 100000 <= R32 (c_frac c) < / 12 + / 100000).
+Proof. exact chromatic_fraction_any. Qed.
+
+(** every clause of the record for any reachable quantizer and any scale, keep path and search path alike; the real sum stair + fraction is within half an ulp (at most 2^-20 V) of the clamped input *)
+Theorem C19_record_consistent_any : forall ops v, wf_ops ops ->
+  let q := qrun ops in
+  let c := snd (convert q v) in
+  let v' := clamp_vin v in
+  (0 <= c_note c <= 131)%Z /\ c_stair c = stair_of (c_note c) /\
+  fin (c_stair c) /\ R32 (c_stair c) = rnd (IZR (c_note c) / 12) /\
+  c_frac c = fsub v' (c_stair c) /\
+  fin (c_frac c) /\ R32 (c_frac c) = rnd (R32 v' - R32 (c_stair c)) /\
+  Rabs (R32 (c_stair c) + R32 (c_frac c) - R32 v')
+    <= / 2 * ulp radix2 fexp32 (Rmax (Rabs (R32 v')) (R32 (c_stair c))) /\
+  Rabs (R32 (c_stair c) + R32 (c_frac c) - R32 v') <= / 1048576 /\
+  fin (fadd (c_stair c) (c_frac c)) /\
+  Rabs (R32 (fadd (c_stair c) (c_frac c)) - R32 v')
+    <= 2 * ulp radix2 fexp32 (Rmax (Rabs (R32 v')) (R32 (c_stair c))) /\
+  (keeps q v = true -> c_note c = c_note (q_cached q)) /\
+  (keeps q v = false -> c_note c = find_nearest_note (q_allowed q) v').
+Proof. exact record_consistent_any. Qed.
+
+(** non-vacuity *)
+Open Scope Z_scope.
+Theorem C19_ex_fraction_after_history :
+  let ops := [QConvert v_0_5] in
+  let q := qrun ops in
+  let c := snd (convert q v_0_7) in
+  let c0 := snd (convert quant_new v_0_7) in
+  wf_ops ops /\ q_allowed q = 4095 /\ c_note (q_cached q) = 6 /\
+  keeps q v_0_7 = false /\
+  c_note c = 8 /\ to_bits (c_stair c) = Some 1059760811 /\
+  to_bits (c_frac c) = Some 1023969408 /\
+  c_note c0 = 8 /\ to_bits (c_stair c0) = Some 1059760811 /\
+  to_bits (c_frac c0) = Some 1023969408 /\
+  (fin (c_frac c) /\ - / 100000 <= R32 (c_frac c) < / 12 + / 100000)%R.
+Proof. exact ex_fraction_after_history. Qed.
+Close Scope Z_scope.
+
+(** non-vacuity: NaN and +inf after history *)
+Open Scope Z_scope.
+Theorem C19_ex_fraction_after_history_nonfinite :
+  let ops := [QConvert v_0_5] in
+  let q := qrun ops in
+  let cn := snd (convert q B754_nan) in
+  let ci := snd (convert q (B754_infinity false)) in
+  wf_ops ops /\ q_allowed q = 4095 /\
+  keeps q B754_nan = false /\ keeps q (B754_infinity false) = false /\
+  c_note cn = 0 /\ to_bits (c_stair cn) = Some 0 /\ to_bits (c_frac cn) = Some 0 /\
+  c_note ci = 120 /\ to_bits (c_stair ci) = Some 1092616192 /\ to_bits (c_frac ci) = Some 0 /\
+  (fin (c_frac cn) /\ - / 100000 <= R32 (c_frac cn) < / 12 + / 100000)%R /\
+  (fin (c_frac ci) /\ - / 100000 <= R32 (c_frac ci) < / 12 + / 100000)%R.
+Proof. exact ex_fraction_after_history_nonfinite. Qed.
+Close Scope Z_scope.
+
 Print Assumptions C19_stairstep.
 Print Assumptions C19_fraction.
 Print Assumptions C19_recompose.
@@ -89,3 +163,8 @@ Print Assumptions C19_window_fraction.
 Print Assumptions C19_ex_window_fraction.
 Print Assumptions C19_convert_idem.
 Print Assumptions C19_initial_state.
+Print Assumptions C19_chromatic_fraction_after_history.
+Print Assumptions C19_chromatic_fraction_any.
+Print Assumptions C19_record_consistent_any.
+Print Assumptions C19_ex_fraction_after_history.
+Print Assumptions C19_ex_fraction_after_history_nonfinite.
